@@ -70,7 +70,10 @@ fn violates(def: &PropDef, env: &Env, wl: &Workload, opts: &SimOpts, decisions: 
 
 /// ddmin over droppable client events, then over the decision list (tolerant replay: infeasible forced
 /// choices are skipped, the benign default policy finishes the run), while the same clause keeps failing.
-fn minimise(def: &PropDef, env: &Env, wl: &Workload, opts: &SimOpts, res: SimResult, clause: &str) -> (Workload, SimResult) {
+fn minimise(def: &PropDef, env: &Env, wl: &Workload, opts: &SimOpts, res: SimResult, clause: &str, expensive: bool) -> (Workload, SimResult) {
+    // a run that compiles the real standard library costs seconds (twice with a reference server): spend far fewer
+    // candidate runs on minimising it
+    let (budget_events, budget_schedule) = if expensive { (10, 14) } else { (60, 120) };
     let mut wl = wl.clone();
     let mut best = res;
     let decisions = |r: &SimResult| r.out.steps.iter().map(|s| s.choice.clone()).collect::<Vec<_>>();
@@ -108,7 +111,7 @@ fn minimise(def: &PropDef, env: &Env, wl: &Workload, opts: &SimOpts, res: SimRes
         let d2: Vec<Choice> = cur_dec.iter().filter_map(|c| match c { Choice::P(i) => map.get(i).map(|n| Choice::P(*n)), other => Some(other.clone()) }).collect();
         (w2, d2)
     };
-    let kept = ddmin(droppable.clone(), 60, |cand| {
+    let kept = ddmin(droppable.clone(), budget_events, |cand| {
         let (w2, d2) = build(cand);
         violates(def, env, &w2, opts, &d2, clause).is_some()
     });
@@ -125,7 +128,7 @@ fn minimise(def: &PropDef, env: &Env, wl: &Workload, opts: &SimOpts, res: SimRes
     }
     let dec = decisions(&best);
     // only deviations matter under tolerant replay: drop non-deviating decisions wholesale first
-    let d = ddmin(dec, 120, |cand| violates(def, env, &wl, opts, cand, clause).is_some());
+    let d = ddmin(dec, budget_schedule, |cand| violates(def, env, &wl, opts, cand, clause).is_some());
     if let Some(r2) = violates(def, env, &wl, opts, &d, clause) {
         best = r2;
     }
@@ -178,7 +181,9 @@ pub fn worker(def: &PropDef, cli: &Cli) -> i32 {
         let mut pr = Rng::stream(sub, "policy");
         let policy = Policy::gen(&mut pr);
         let pname = policy.name.clone();
+        let t_run = std::time::Instant::now();
         let res = simulate(&env, &wl, Mode::Seeded { rng: Rng::stream(sub, "choices"), policy }, &opts);
+        let expensive = t_run.elapsed().as_secs_f64() > 1.0;
         let mut line = json!({"i": i, "steps": res.out.steps.len(), "hash": format!("{:016x}", decisions_hash(&res)), "states": res.out.states, "io_steps": res.out.io_steps, "events": wl.events.len(),
             "probes": (def.probes)(&wl, &res), "sched_probes": sched::probes_from(&res.out), "deviations": res.out.steps.iter().filter(|s| s.deviates).count(), "class": if opts.gate_first { "F" } else { "T" }});
         if res.out.infeasible {
@@ -192,7 +197,9 @@ pub fn worker(def: &PropDef, cli: &Cli) -> i32 {
                 let budget_ok = minimised_f + minimised < 40;
                 if budget_ok && reported.insert(raw_class) {
                     if opts.gate_first { minimised_f += 1 } else { minimised += 1 }
-                    let (mw, mr) = minimise(def, &env, &wl, &opts, res, &clause);
+                    // runs that compile the real standard library (seconds each, twice with a reference server) are
+                    // reported as they are: their signature is semantic, and a minimisation would take many minutes
+                    let (mw, mr) = if expensive { (wl.clone(), res) } else { minimise(def, &env, &wl, &opts, res, &clause, false) };
                     let mdetail = (def.judge)(&mw, &mr).map(|x| x.1).unwrap_or(detail);
                     // strict replay must reproduce the same decisions and the same clause
                     let dec: Vec<Choice> = mr.out.steps.iter().map(|s| s.choice.clone()).collect();
